@@ -6,3 +6,4 @@ from contracts import peaks  # noqa
 from contracts import selection  # noqa
 from contracts import context  # noqa
 from contracts import mailbox  # noqa
+from contracts import storage  # noqa
